@@ -144,7 +144,7 @@ func fmtArgs(r *rng.R) []cty.Value {
 }
 
 var regexes = []string{"a", "[a-z]+", "(\\w+) (\\w+)", "(?P<first>\\w)(?P<rest>\\w*)", "^$", "x*", "(a)|(b)", "\\d+", "[", "(?P<n>\\d)(?P<n>\\d)", ".", "日本", "(a)(?P<n>b)"}
-var timestamps = []string{"2006-01-02T15:04:05Z", "2020-02-29T23:59:59+09:00", "1999-12-31T00:00:00-08:00", "2006-01-02T15:04:05.999Z", "2006-01-02", "2006-01-02T15:04:05", "2006-13-02T15:04:05Z", "0001-01-01T00:00:00Z", "9999-12-31T23:59:59Z", "2006-01-02t15:04:05z", "2021-02-30T00:00:00Z", "2006-01-02T24:00:00Z"}
+var timestamps = []string{"2006-01-02T15:04:05-03:30", "2020-06-30T23:59:59-00:45", "1999-12-31T00:00:00+05:45", "2006-01-02T15:04:05-09:30", "2006-01-02T15:04:05+12:45", "2006-01-02T15:04:05Z", "2020-02-29T23:59:59+09:00", "1999-12-31T00:00:00-08:00", "2006-01-02T15:04:05.999Z", "2006-01-02", "2006-01-02T15:04:05", "2006-13-02T15:04:05Z", "0001-01-01T00:00:00Z", "9999-12-31T23:59:59Z", "2006-01-02t15:04:05z", "2021-02-30T00:00:00Z", "2006-01-02T24:00:00Z"}
 var dateFormats = []string{"YYYY-MM-DD", "DD MMM YYYY hh:mm ZZZ", "EEEE, DD-MMM-YY hh:mm:ss ZZZ", "EEE, DD MMM YYYY hh:mm:ss ZZZ", "YYYY-MM-DD'T'hh:mm:ssZ", "h:mm aa", "HH AA", "M/D/YY", "MMMM EEE", "'quoted''s' YYYY", "'unterminated", "X", "YYYYY", "ZZZZ ZZZZZ", "s ss", "hhh"}
 var durations = []string{"1h", "-30m", "10s", "1h30m15s", "0s", "24h", "1.5h", "100ms", "x", "1d", "", "2562047h47m16.854775807s", "-1ns"}
 var jsonDocs = []string{"\n{\"a\": [1, 2]}", "\r\n\t [true]", "\n\n\"s\"", "\t12", `{"a":1,"b":[true,null,"x"]}`, `[1,2,3]`, `"str"`, `12.5`, `null`, `{}`, `[]`, `{"a":{"b":{"c":[]}}}`, `[1,"a"]`, `{"a":1,"a":2}`, `{"a":1,"a":"x"}`, `{`, ``, `1e400`, `[1,2] x`, `{"é":"é"}`, `18446744073709551616`, `true`, `[[],[1]]`, ` [1] `}
@@ -421,6 +421,17 @@ func init() {
 	regStd("ParseInt", stdlib.ParseIntFunc, func(r *rng.R) []cty.Value {
 		s := []string{"12", "-7", "ff", "FF", "0x1f", "777", "102", "z", "", "1e3", "+5", " 5", "9223372036854775808", "123456789012345678901234567890", "1_000"}[r.Intn(15)]
 		b := []int64{10, 16, 8, 2, 36, 62, 63, 1, 0, -1}[r.Intn(10)]
+		if r.Chance(20) { // integers wider than any fixed mantissa: every digit must survive
+			b = []int64{10, 16, 2, 8, 62}[r.Intn(5)]
+			n := map[int64]int{10: 170, 16: 140, 2: 530, 8: 180, 62: 95}[b] + r.Intn(8)
+			var sb strings.Builder
+			sb.WriteString("1")
+			for k := 1; k < n; k++ {
+				sb.WriteByte("0123456789abcdefghijklmnopqrstuvwxyzABCDEFGHIJKLMNOPQRSTUVWXYZ"[r.Intn(int(b))])
+			}
+			sb.WriteString("1")
+			s = sb.String()
+		}
 		return []cty.Value{cty.StringVal(s), cty.NumberIntVal(b)}
 	})
 	regStd("Regex", stdlib.RegexFunc, func(r *rng.R) []cty.Value { return []cty.Value{cty.StringVal(regexes[r.Intn(len(regexes))]), str(r)} })
@@ -458,6 +469,17 @@ func init() {
 		vs := make([]cty.Value, r.Intn(5))
 		for i := range vs {
 			vs[i] = pick()
+		}
+		if r.Chance(12) { // at and around the documented limit of 1024 elements
+			n := int64([]int{1023, 1024, 1025}[r.Intn(3)])
+			switch r.Intn(3) {
+			case 0:
+				return []cty.Value{cty.NumberIntVal(n)}
+			case 1:
+				return []cty.Value{cty.NumberIntVal(-n)}
+			default:
+				return []cty.Value{cty.NumberIntVal(10), cty.NumberFloatVal(10 + float64(n)/2), cty.NumberFloatVal(0.5)}
+			}
 		}
 		return vs
 	})
